@@ -1,8 +1,8 @@
 SPECIFICATION Spec
 CONSTANT CmrN = 8
-CONSTANT N = 5
+CONSTANT N = 4
 CONSTANT Ops <- Ops_human
-CONSTANT EmitMod = 29
+CONSTANT EmitMod = 1
 CONSTANT TyDepth = 3
 INVARIANT NamesOk
 INVARIANT RoundTripInv
